@@ -63,6 +63,20 @@ def run(ctx):
                 scripts.append({"run": len(scripts), "src": "design-counterexample:" + inv, "h": h})
     ctx.set("design_level_counterexamples", design)
 
+    # directed behaviours: two live paths of one regex configuration move together to another one and
+    # disagree on whether they can be kept (same capture group for "cam", a different one for "cam1");
+    # repeated because the manager visits its paths in map order
+    A = {"hot": -1, "cold": -1}
+    on = {"hot": 0, "cold": 0}
+    for rep in range(ctx.pick(8, 40)):
+        for first, second in (("cam", "cam1"), ("cam1", "cam")):
+            h = [{"a": "Reload", "cm": {"cam": A, "R1": on, "R2": A, "AO": A}, "name": "", "rl": 1},
+                 {"a": "Request", "cm": {}, "name": first, "rl": 0},
+                 {"a": "Request", "cm": {}, "name": second, "rl": 0},
+                 {"a": "Reload", "cm": {"cam": A, "R1": A, "R2": on, "AO": A}, "name": "", "rl": 2},
+                 {"a": "Deliver", "cm": {}, "name": "cam", "rl": 2}]
+            scripts.append({"run": len(scripts), "src": "directed:two-paths-rehomed-together", "h": h})
+
     # 2. GEN: seeded random behaviours (the state graph has too many edges to cover in a quick run)
     nsim = ctx.pick(300, 4000)
     r = vf.tlc(ctx, "PathManagerMC", cfg("PM_sim.cfg", "INVARIANT EmitRun", r=4, inc=9, depth=12), workers=1, timeout=900,
